@@ -137,6 +137,16 @@ def check_history(h):
             lwu, lzu = sm.compute_logw_and_logz(h["beta"], normalize=False)
     if fp:
         bad.append(("fp-exception", f"floating point exception inside compute_logw_and_logz: {fp[0]}"))
+    # the same request spelled the other ways the signature allows (keywords, positional normalize, defaults for the posterior)
+    with np.errstate(all="ignore"):
+        alts = [("beta_final=..., normalize=True", sm.compute_logw_and_logz(beta_final=tbq, normalize=True), (lw, lz)),
+                ("(beta, False) positionally", sm.compute_logw_and_logz(tbq, False), (lwu, lzu))]
+        if h["beta"] == 1.0:
+            alts.append(("no arguments (posterior)", sm.compute_logw_and_logz(), (lw, lz)))
+            alts.append(("normalize=False only", sm.compute_logw_and_logz(normalize=False), (lwu, lzu)))
+    for nm, (a_w, a_z), (r_w, r_z) in alts:
+        if not np.array_equal(np.asarray(a_w), np.asarray(r_w), equal_nan=True) or not (a_z == r_z or (np.isnan(a_z) and np.isnan(r_z))):
+            bad.append(("call-form-dependent", f"compute_logw_and_logz called with {nm} gives another answer than the same request with (beta) / (beta, normalize=False)"))
     # a second and third request on the SAME manager with other target temperatures, then the first one again
     # (per-history caches must be keyed on everything the result depends on)
     for b2 in (float(h["betas"][0]), 0.5 * (h["beta"] + 1.0)):
